@@ -64,7 +64,10 @@ def transform(ds: synth.DataSet, name: str, rng) -> tuple:
     elif name == "col-upper":
         kw["upper"] = True
     elif name == "row-perm":
-        kw["row_perm"] = rng.permutation(d.nv).tolist()
+        p = rng.permutation(d.nv)
+        if (p == numpy.arange(d.nv)).all() or (p == numpy.arange(d.nv)[::-1]).all():
+            p = numpy.roll(numpy.arange(d.nv), 2)                # neither the listed nor the reversed order
+        kw["row_perm"] = p.tolist()
     elif name in ("vol-rev", "vol-shuffle"):
         p = numpy.arange(d.nv)[::-1] if name == "vol-rev" else rng.permutation(d.nv)
         if name == "vol-shuffle" and ((p == numpy.arange(d.nv)).all() or (p == numpy.arange(d.nv)[::-1]).all()):
@@ -151,6 +154,10 @@ def gen_cases(ctx: Ctx):
                       "nq": int(rng.integers(3, 5)),
                       "na": int(rng.integers(2, 4)), "system": [None, "orthorhombic", "trigonal7", "monoclinic"][i % 4],
                       "lattice": bool(i % 2), "law": ("smooth" if node_based else ["quadratic", "power"][i % 2])})
+    # the smallest legal data sets: 4 or 5 volumes (static table rows = phonon volumes), with a lattice-parameter block
+    for k in range(2 if ctx.thorough() else 1):
+        cases.append({"idx": n + k, "interp": "lsq_poly", "order": 2, "nv": [4, 5][(ctx.seed + k) % 2], "nq": int(rng.integers(2, 4)),
+                      "na": 2, "system": [None, "orthorhombic"][k % 2], "lattice": True, "law": "power", "lattice_curvature": True})
     return cases
 
 
@@ -160,7 +167,7 @@ def build(case, seed):
     settings = {"qha": {"settings": {"NT": 4, "DT": 300, "DT_SAMPLE": 300, "NTV": 10, "DELTA_P": 1.5, "DELTA_P_SAMPLE": 1.5}},
                 "elast": {"settings": {"mode_gamma": {"interpolator": case["interp"], "order": case["order"]}}}}
     return synth.make_dataset(rng, nv=case["nv"], nq=case["nq"], na=case["na"], system=case["system"], keys=keys,
-                              lattice=case["lattice"], law=case["law"], settings=settings)
+                              lattice=case["lattice"], law=case["law"], settings=settings, lattice_curvature=bool(case.get("lattice_curvature")))
 
 
 def evaluate(case, seed, which=None):
